@@ -89,11 +89,24 @@ def run(F, rep, tier, allfacts):
             al = [b for b in blocks if f["bbs"][b]["t"][0] == "call" and callee_matches(f["bbs"][b]["t"][1], r"PoliciesBits>::all$")]
             ct = [b for b in blocks if f["bbs"][b]["t"][0] == "call" and callee_matches(f["bbs"][b]["t"][1], r"PoliciesBits>::contains$")]
             return len(al) == 1 and len(ct) == 1 and ct[0] in cfg.reachable_from(ct[0])
-        rep.check(has4(rt) and not has4(rf) and hasloop(rf) and not hasloop(rt), "SIB-layout-predicate", "%s:true->[Word;4];false->compact-loop" % site, where,
+        def haschain(blocks):
+            """the same loop as an iterator chain: zip(values, all()).filter(|(_, bit)| bits.contains(bit)).map(..).collect()"""
+            al = [b for b in blocks if f["bbs"][b]["t"][0] == "call" and callee_matches(f["bbs"][b]["t"][1], r"PoliciesBits>::all$")]
+            co = [b for b in blocks if f["bbs"][b]["t"][0] == "call" and callee_matches(f["bbs"][b]["t"][1], r"Iterator>?::collect$|Iterator::collect$")]
+            if len(al) != 1 or len(co) != 1:
+                return False
+            recv = describe(f, f["bbs"][co[0]]["t"][2][0], depth=30)
+            fl = [cn for cn, cf in F.find("^" + re.escape(n) + r"::\{closure#\d+\}$", ["fuel_tx"], required=False)
+                  if any(callee_matches(c, r"PoliciesBits>::contains$") for _, c, *_ in calls(cf))]
+            return len(fl) == 1 and "call:filter(" in recv and "call:all(" in recv and fl[0].rsplit("::", 1)[-1] in recv
+        chain = haschain(rf) and not haschain(rt)
+        rep.check(has4(rt) and not has4(rf) and ((hasloop(rf) and not hasloop(rt)) or chain), "SIB-layout-predicate", "%s:true->[Word;4];false->compact-loop" % site, where,
                   "4-element path on true side=%s / false side=%s; compact loop on false side=%s / true side=%s" % (has4(rt), has4(rf), hasloop(rf), hasloop(rt)))
         # compact loop details
         ct = [b for b in rf if f["bbs"][b]["t"][0] == "call" and callee_matches(f["bbs"][b]["t"][1], r"PoliciesBits>::contains$")]
         if not ct:
+            if site == "serialize" and chain:
+                rep.check(True, "SIB-compact-loop", "serialize:push-only-for-set-bits", where, "")      # the filter of the chain (checked above) selects the set bits
             continue
         bc = bool_consumers(f, ct[0])
         if len(bc) != 1:
